@@ -34,6 +34,7 @@ var resInstances = []resInstance{
 	{"SecureConfig.Check", "", "the checksummed file is closed"},
 	{"Serve", "net.Listener", "the plugin's listener is closed (and its socket file removed) on every return after it was created"},
 	{"GRPCBroker.AcceptAndServe", "", "the brokered listener is closed when serving ends"},
+	{"GRPCBroker.Accept", "", "a brokered listener that cannot be announced to the peer is closed (its socket file removed) before the error is returned"},
 	{"MuxBroker.AcceptAndServe", "", "the accepted connection is handed to the RPC server"},
 }
 
